@@ -170,7 +170,7 @@ CORRS = [
          classify=lambda a, o: "ok:depth%d" % c03_models.depth(a["model"]) if "ok" in o else "err:" + str(o.get("err")),
          describe="XmlSerializer.render of dataclasses built from a declarative model (both writers) vs Lean Spec.ObjectTree.specRoot"),
     Corr("ns.clean", gen_clean, impl_clean, describe="clean_prefixes"),
-    Corr("ns.split_qname", gen_split, impl_split, describe="split_qname"),
+    Corr("xml.split_qname", gen_split, impl_split, describe="split_qname"),
     Corr("ns.load_prefix", gen_prefix, impl_load_prefix, describe="load_prefix"),
     Corr("ns.generate_prefix", gen_prefix, impl_generate_prefix, describe="generate_prefix"),
     Corr("sax.escape", gen_escape, impl_escape, describe="saxutils.escape / quoteattr"),
